@@ -174,6 +174,8 @@ type Allocation struct {
 	PoolIndex    int
 	SubscriberID uint32
 	AllocatedAt  time.Time
+
+	slot int // index of the port block within the public IP's port range
 }
 
 // ManagerConfig configures the NAT manager
@@ -416,11 +418,16 @@ func (m *Manager) AllocateNAT(privateIP net.IP) (*Allocation, error) {
 	defer m.poolMu.Unlock()
 
 	var selectedPool *PoolEntry
-	var poolIndex int
+	var poolIndex, slot int
 	for i := range m.pool {
 		if m.pool[i].Subscribers < m.pool[i].MaxSubscribers {
+			s, ok := m.freeSlotLocked(i)
+			if !ok {
+				continue
+			}
 			selectedPool = &m.pool[i]
 			poolIndex = i
+			slot = s
 			break
 		}
 	}
@@ -429,8 +436,10 @@ func (m *Manager) AllocateNAT(privateIP net.IP) (*Allocation, error) {
 		return nil, fmt.Errorf("NAT pool exhausted: no available public IPs")
 	}
 
-	// Calculate port range for this subscriber (deterministic based on subscriber count)
-	portStart := uint16(m.portRangeStart + (selectedPool.Subscribers * m.portsPerSubscriber))
+	// Calculate port range for this subscriber from the block slot. The slot must not be
+	// derived from the subscriber count: after a release from the middle the count names
+	// a block that another subscriber still holds.
+	portStart := uint16(m.portRangeStart + (slot * m.portsPerSubscriber))
 	portEnd := portStart + uint16(m.portsPerSubscriber) - 1
 
 	// Get or create subscriber ID
@@ -444,6 +453,7 @@ func (m *Manager) AllocateNAT(privateIP net.IP) (*Allocation, error) {
 		PoolIndex:    poolIndex,
 		SubscriberID: subscriberID,
 		AllocatedAt:  time.Now(),
+		slot:         slot,
 	}
 
 	// Update eBPF map
@@ -491,6 +501,26 @@ func (m *Manager) AllocateNAT(privateIP net.IP) (*Allocation, error) {
 	)
 
 	return allocation, nil
+}
+
+// freeSlotLocked returns the lowest port-block slot of pool entry idx that no live
+// allocation holds. The caller must hold poolMu.
+func (m *Manager) freeSlotLocked(idx int) (int, bool) {
+	m.allocationMu.RLock()
+	defer m.allocationMu.RUnlock()
+
+	used := make(map[int]bool)
+	for _, a := range m.allocations {
+		if a.PoolIndex == idx {
+			used[a.slot] = true
+		}
+	}
+	for s := 0; s < m.pool[idx].MaxSubscribers; s++ {
+		if !used[s] {
+			return s, true
+		}
+	}
+	return 0, false
 }
 
 // DeallocateNAT removes NAT allocation for a subscriber
